@@ -420,15 +420,12 @@ func c46Prop_(c c46Case, r *vp.Rec) error {
 	}
 
 	// 5. verdict
+	// No part of the source is exempt: the statement covers destinations inside the
+	// source too (an earlier version of this check exempted the destination region;
+	// the handler now refuses such requests, see KNOWN_FINDINGS c46-dst-inside-src).
 	excl := ""
 	if dOK && D != S && c46Under(D, S) {
-		// The destination lies strictly inside the source: replacing the destination
-		// is the defined effect of the request, so that region is exempt.
-		excl = D
-		if old, ok := pre[D]; ok && post[D] != old {
-			// counted so that the exemption is visible in the evidence
-			r.Class("note:" + c.Method + "-into-own-subtree-replaced-existing-dst")
-		}
+		r.Class("dst-inside-src-checked-strictly")
 	}
 	intactErr := c46Intact(pre, post, S, excl)
 	if c.Method == "COPY" {
